@@ -13,6 +13,14 @@ def run(ctx, focus):
         ctx.tlc("AsyncLogger", "MC_Async_%s%s" % (pol, "_t" if thorough else ""), timeout=3000)
         ctx.tlc("AsyncLogger", "MC_Async_live_%s" % pol, timeout=900)
         ctx.tlc("AsyncRefinement", "MC_AsyncRef_%s" % pol, timeout=900)      # AsyncLogger refines AbstractFifo
+        ctx.tlc("AsyncCountersRef", "MC_AsyncCnt_%s" % pol, timeout=900)     # ... and implements its counter abstraction
+    # the counter abstraction's conservation / flush invariant, inductively (any capacity, producers, items)
+    cin = ["--cinit=ConstInit"]
+    ctx.apalache("AsyncCounters", [
+        ("init=>IndInv", cin + ["--init=Init", "--inv=IndInv", "--length=0"]),
+        ("IndInv/\\Next=>IndInv'", cin + ["--init=IndInv", "--inv=IndInv", "--length=1"]),
+        ("IndInv=>Flushed", cin + ["--init=IndInv", "--inv=Flushed", "--length=0"]),
+        ("IndInv=>WorkerCanProceed", cin + ["--init=IndInv", "--inv=WorkerCanProceed", "--length=0"])])
     hist = []
     for pol in POLICIES:
         g = ctx.tlc("AsyncGen", "Gen_Async_%s_%s" % (pol, "t" if thorough else "q"), timeout=3000)
@@ -54,7 +62,8 @@ def run(ctx, focus):
         rep.absorb(ctx.vh_sharded("lifecycle", life.emitted, extra=["--mode", "async"], shards=8, timeout=1500))
     rep.exhaustive = True
     rep.rule = ("AsyncLogger.tla model-checked for each policy (2 producers, capacity 2, safety + Stop liveness + refinement of "
-                "AbstractFifo.tla, a lossy FIFO); "
+                "AbstractFifo.tla, a lossy FIFO, and implementation of the counter abstraction AsyncCounters.tla whose inductive "
+                "invariant - conservation, bound, flushed at Stop - Apalache proves for every capacity, producer and item count); "
                 "AsyncGen.tla behaviours - every sequence of %d operations over {event, disabled event, raw write, "
                 "release worker, Stop} from occupancies 97..99 (and 0..2, 4 operations) of a 100-slot buffer, per policy, plus simulated "
                 "14-operation behaviours with 3 producers - replayed on a real AsyncLogger with a gated appender, "
